@@ -3,6 +3,8 @@ import Tmv.Lemmas.VoteReachRun
 import Tmv.Lemmas.GoodRound
 import Tmv.Lemmas.SyncClosure
 import Tmv.Lemmas.CommitInv
+import Tmv.Lemmas.SyncLog
+import Tmv.Lemmas.SyncOwn
 /-! # C03 — termination: correct nodes decide once the network behaves  (**partial**)
 
 Models: `Tmv.Cons` (one node, `consensus/state.go` statement by statement; tied to the real
@@ -39,7 +41,12 @@ What is proved here, each for EVERY configuration / state / schedule it quantifi
   quorum recorded + block held ⇒ decided; universal commit-path invariants `Cons.KI`); what the
   idealised gossip
   achieves: `closure_records_votes`, `closure_spreads_majority` (after a converged closure every
-  logged vote / every +2/3 majority in the log is recorded at every node that can take it); the
+  logged vote / every +2/3 majority in the log is recorded at every node that can take it),
+  `correct_votes_never_conflict` (one vote per round lifted to the log: a correct validator's logged
+  vote is its only vote for that round and type at every correct node) and hence
+  `closure_spreads_correct_majority` / `correct_majority_known_to_all` (polkas and commits of correct
+  validators spread to every live idle node tracking the round, no side condition; uses
+  `own_votes_recorded`), `closure_converged_of_count`; the
   discipline of the synchronous suffix (`suffix_timeout_needs_closed_net`,
   `suffix_timeouts_in_time_order`);
 * the full statement `Termination` is FALSE of the model and of the code, for two reasons, both
@@ -53,14 +60,19 @@ What is proved here, each for EVERY configuration / state / schedule it quantifi
 What is NOT proved (stated as definitions below, with what is missing): `good_round_decides` and
 `bad_round_harmless` at network level and `Termination` under `NoOrphanCommit`, `NoStaleLock` and
 `FairSchedule` (`TerminationRemaining`). `closure_single_lock` is false as stated
-(`ClosureSingleLock`, `closure_single_lock_fails`); under `NoStaleLock` it is open. Missing pieces:
-(a) that `closure` converges within its fuel on reachable nets; (b) the lift of C02's
-one-vote-per-round to the net's log (C01's `log_behaved`) to discharge the `only` hypotheses of
-`closure_spreads_majority` for correct validators; (c) the round-synchronisation argument (after
-closure all correct nodes are within one round of each other and meet in the next round before any
-propose timeout of it fires — this is where the virtual-time order of `syncRun` enters); (d) the
-composition of `good_round_decides_node` over all correct nodes of a closed net. The Go stream's
-oracle checks the bound of `Termination` on every generated run instead. -/
+(`ClosureSingleLock`, `closure_single_lock_fails`); under `NoStaleLock` it is open. Of the four
+pieces named earlier: (a) the lift of one-vote-per-round to the net's log is now PROVED
+(`correct_votes_never_conflict`, `closure_spreads_correct_majority`: no `only` hypotheses left for
+correct validators); (b) convergence of `closure` within its fuel is reduced to the executable test
+`closureCount` (`closure_converged_of_count`), which the stream evaluates on both sides for every
+closure of every run (never more than a handful of passes) — a proof for all reachable nets needs a
+protocol-level measure and is open; (c) composing `good_round_decides_node` over all correct nodes of
+a closed net needs, beyond (a): that every node has entered the round (round synchronisation), that
+proposal and block reach a node that knows the header or are re-delivered (`closure` does that; the
+fixpoint argument of `closure_records_votes` has to be repeated for proposals and block parts)
+— that the correct nodes' own votes are recorded at themselves is proved (`own_votes_recorded`); (d) round
+synchronisation in virtual time (`bad_round_ends_at_precommit_wait_timeout` is the single-node step).
+The Go stream's oracle checks the bound of `Termination` on every generated run instead. -/
 namespace Tmv.Props.C03
 open Tmv.Cons Tmv.Sync
 
@@ -132,6 +144,13 @@ theorem round_skip_on_precommits (c : Cfg) (s : NodeState) (vr : Nat) (hh : s.ha
     (hno : maj23Of (s.votes.precommits vr) = none) :
     (afterPrecommit c s vr).halted = true ∨ (afterPrecommit c s vr).round = vr :=
   Cons.round_skip_on_precommits c s vr hh hlt hany hno
+
+/-- **a bad round ends at the precommit-wait timeout**: a live node in round `r` (not in the commit
+step) that is given its `PrecommitWait` timeout of round `r` moves on to round `r + 1` -/
+theorem bad_round_ends_at_precommit_wait_timeout (c : Cfg) (s : NodeState) (r : Nat) (hh : s.halted = false)
+    (hr : s.round = r) (hst : s.step.rank ≤ Step.precommitWait.rank) :
+    (handleTimeout c s r .precommitWait).halted = true ∨ (handleTimeout c s r .precommitWait).round = r + 1 :=
+  precommitWait_timeout_advances c s r hh hr hst
 
 /-- **unlock on a later polka**: locked on `b` since a round before `vr`, in round `vr` or later,
 and the round-`vr` prevotes have a +2/3 majority for something else (nil included) ⇒ unlocked -/
@@ -397,6 +416,100 @@ theorem net_quorum_and_block_decide (c : SCfg) (correct : List Nat) (ops : List 
   obtain ⟨is, e⟩ := Sync.nodes_are_runs c correct ops nd hm
   rw [e] at hh hnorphan hq hcv hb ⊢
   exact Cons.quorum_and_block_decide is r b hh hnorphan hq hcv hb
+
+/-- **one vote per round, lifted to the net's log** (every schedule, whatever the faulty validators
+do, MockPV or FilePV signer): a vote in the log that carries the index of a correct validator `u` is
+the ONLY vote of `u` for that (round, type) that any correct node holds — so `u`'s votes can never be
+refused as conflicting anywhere. (Invariant behind it, `Sync.LogInv`: every correct node satisfies
+C02's step-guard invariant because the timeouts it is given are the ones it scheduled; a logged vote
+with a correct index was signed by that node; a recorded vote is an own signed vote or a logged
+vote.) -/
+theorem correct_votes_never_conflict (c : SCfg) (correct : List Nat) (hn : correct.Nodup) (ops : List Op)
+    (nd ndu : Node) (hm : nd ∈ ((Net.init correct).run c ops).nodes)
+    (hmu : ndu ∈ ((Net.init correct).run c ops).nodes)
+    (v : Vote) (hv : Msg.vote v ∈ ((Net.init correct).run c ops).log) (hval : v.val = ndu.idx) :
+    nd.s.votes.only (v.round : Int) v.typ v.bid ndu.idx :=
+  only_of_logged _ (run_LogInv c correct hn ops) nd ndu hm hmu v hv hval
+
+/-- **after closure a +2/3 majority of CORRECT validators that exists in the log is recorded at every
+live node that tracks the round** — no hypothesis about conflicting votes any more: polkas and
+commits of correct validators spread to everybody. (`hself`: if the node is one of the voters, its
+own vote is recorded at it.) -/
+theorem closure_spreads_correct_majority (c : SCfg) (correct : List Nat) (hn : correct.Nodup) (ops : List Op)
+    (hconv : ((Net.init correct).run c ops).closureConverged c)
+    (i : Nat) (nd : Node) (hi : (((Net.init correct).run c ops).closure c).nodes[i]? = some nd)
+    (r : Nat) (t : VType) (b : Bid) (Q : List Nat) (hQ : Q.Nodup)
+    (hQc : ∀ u ∈ Q, u ∈ correct ∧ u < c.cfg.n)
+    (hlog : ∀ u ∈ Q, Msg.vote ⟨t, r, b, u, true, u, u⟩ ∈ (((Net.init correct).run c ops).closure c).log)
+    (hself : nd.idx ∈ Q → nd.s.votes.has (r : Int) t b nd.idx)
+    (hlive : nd.s.halted = false ∧ nd.s.decided = none)
+    (ht : (nd.s.votes.getVoteSet (r : Int) t).isSome = true)
+    (hp : (nodeCfg c.cfg nd.idx).quorum ≤ (Q.map (nodeCfg c.cfg nd.idx).power).sum) :
+    maj23Of (nd.s.votes.getVoteSet (r : Int) t) = some b := by
+  have hinv : LogInv (((Net.init correct).run c ops).closure c) :=
+    closure_LogInv c _ (run_LogInv c correct hn ops)
+  have hidx : (((Net.init correct).run c ops).closure c).nodes.map (·.idx) = correct :=
+    (closure_idx c _).trans (run_idx c correct ops)
+  refine Sync.closure_spreads_majority c _ hconv (net_vote_sets_well_formed c correct ops) i nd hi r t b Q hQ
+    (fun u hu => (hQc u hu).2) ?_ hself hlive ht ?_ hp
+  · intro u hu _
+    obtain ⟨k, hk⟩ := List.getElem?_of_mem (hlog u hu)
+    exact ⟨k, hk⟩
+  · intro u hu
+    have hmemu : u ∈ (((Net.init correct).run c ops).closure c).nodes.map (·.idx) := by
+      rw [hidx]; exact (hQc u hu).1
+    obtain ⟨ndu, hndu, e⟩ := List.mem_map.1 hmemu
+    have := only_of_logged _ hinv nd ndu (List.mem_of_getElem? hi) hndu
+      ⟨t, r, b, u, true, u, u⟩ (hlog u hu) e.symm
+    rw [e] at this
+    exact this
+
+/-- **convergence of the gossip closure is checkable**: `closureCount` (the number of passes the loop
+makes when it stops at a pass that changed nothing; printed by the driver for EVERY closure of every
+generated run and counted independently on the real nodes by the Go side — evidence key
+`gossip_passes_per_closure`, oracle fingerprint `sync.closure-did-not-converge`) being `some _` is
+exactly the hypothesis `closureConverged` of `closure_records_votes` / `closure_spreads_*`. That
+the count stays below the fuel (64) on every reachable net is NOT proved (it is observed: at most a
+handful of passes). -/
+theorem closure_converged_of_count (c : SCfg) (net : Net) (k : Nat)
+    (h : closureCount c closureFuel net = some (k + 1)) : net.closureConverged c :=
+  closureConverged_of_count c net k h
+
+/-- **every live node of every reachable net has recorded every vote it signed** (its queue is empty:
+it always is between the moves of the scheduler — the stream compares the queue length of every
+node after every move) -/
+theorem own_votes_recorded (c : SCfg) (correct : List Nat) (hn : correct.Nodup) (ops : List Op)
+    (nd : Node) (hm : nd ∈ ((Net.init correct).run c ops).nodes)
+    (hlt : nd.idx < c.cfg.n) (hlive : nd.s.halted = false ∧ nd.s.decided = none)
+    (hq : nd.s.queue = [])
+    (t : VType) (r : Nat) (b : Bid) (hs : Output.signVote t r b ∈ nd.s.out) :
+    nd.s.votes.has (r : Int) t b nd.idx :=
+  Sync.own_votes_recorded c correct hn ops nd hm hlt hlive hq t r b hs
+
+/-- **polkas and commits of correct validators are known to every correct node after closure**: as
+`closure_spreads_correct_majority`, with the node's own vote taken care of — the only conditions left
+on the receiving node are that it is live, idle (empty queue) and tracks the round. -/
+theorem correct_majority_known_to_all (c : SCfg) (correct : List Nat) (hn : correct.Nodup) (ops : List Op)
+    (hconv : ((Net.init correct).run c ops).closureConverged c)
+    (i : Nat) (nd : Node) (hi : (((Net.init correct).run c ops).closure c).nodes[i]? = some nd)
+    (r : Nat) (t : VType) (b : Bid) (Q : List Nat) (hQ : Q.Nodup)
+    (hQc : ∀ u ∈ Q, u ∈ correct ∧ u < c.cfg.n)
+    (hlog : ∀ u ∈ Q, Msg.vote ⟨t, r, b, u, true, u, u⟩ ∈ (((Net.init correct).run c ops).closure c).log)
+    (hlive : nd.s.halted = false ∧ nd.s.decided = none) (hq : nd.s.queue = [])
+    (ht : (nd.s.votes.getVoteSet (r : Int) t).isSome = true)
+    (hp : (nodeCfg c.cfg nd.idx).quorum ≤ (Q.map (nodeCfg c.cfg nd.idx).power).sum) :
+    maj23Of (nd.s.votes.getVoteSet (r : Int) t) = some b := by
+  refine closure_spreads_correct_majority c correct hn ops hconv i nd hi r t b Q hQ hQc hlog ?_ hlive ht hp
+  intro hself
+  -- the closed net is reachable too
+  have hreach : ((Net.init correct).run c ops).closure c = (Net.init correct).run c (ops ++ [.closure]) := by
+    simp [Net.run, List.foldl_append, Net.op]
+  have hm : nd ∈ ((Net.init correct).run c (ops ++ [.closure])).nodes := by
+    rw [← hreach]; exact List.mem_of_getElem? hi
+  have hinv : LogInv ((Net.init correct).run c (ops ++ [.closure])) := run_LogInv c correct hn _
+  have hsigned := hinv.signed nd hm ⟨t, r, b, nd.idx, true, nd.idx, nd.idx⟩
+    (by rw [← hreach]; exact hlog nd.idx hself) rfl
+  exact Sync.own_votes_recorded c correct hn _ nd hm (hQc nd.idx hself).2 hlive hq t r b hsigned
 
 /-- the same for a synchronous suffix -/
 theorem decisions_are_final_in_suffix (c : SCfg) (net : Net) (moves : List Op) (i : Nat) (d : Nat × Int)
@@ -828,6 +941,10 @@ example : (run exNode1 .init exGoodRun).halted = false ∧
     (run exNode1 .init exGoodRun).commitRound = 0 ∧
     (run exNode1 .init exGoodRun).proposalBlock = some 0 ∧
     (run exNode1 .init exGoodRun).decided = some (0, 0) := by decide
+
+/-- the closure at the synchrony point of the first witness run converges with the second pass -/
+example : closureCount exCfg closureFuel { (Net.init [0, 2, 3]).run exCfg exPrefix with synced := true } = some 2 := by
+  decide +kernel
 
 /-- the round-robin schedule of the witness configuration is fair with window 4 -/
 example : FairSchedule exCfg.cfg 4 := by
